@@ -177,7 +177,8 @@ def get_data_json_path(sid_path: Path) -> Path:
     """
 
     # TODO: add file rotation
-    data_path = sid_path.with_name('.' + sid_path.name).with_suffix(path_data_suffix)
+    # (the stem, not with_suffix: for a name starting with a dot, ".x" is the suffix of "..x", and all such names would share "..data.json")
+    data_path = sid_path.with_name('.' + sid_path.stem + path_data_suffix)
     return data_path
 
 # End of Config for WriteToPaths & GetFromPaths
